@@ -192,7 +192,8 @@ def arc_length_3point(p_start: NPPointType, p_btw: NPPointType, p_end: NPPointTy
     radius = rad_end
 
     # Determine the angle
-    angle = np.arccos((rad_start.dot(rad_end)) / (mag1 * mag3))
+    # (clipped: rounding can push the cosine of a half circle just below -1)
+    angle = np.arccos(np.clip((rad_start.dot(rad_end)) / (mag1 * mag3), -1.0, 1.0))
 
     # Check if the vectors define an exterior or an interior arcEdge
     if np.dot(np.cross(rad_start, rad_btw), np.cross(rad_start, rad_end)) < 0:
